@@ -25,4 +25,8 @@ Example printed_tenth : repr_float (S754_finite false 7205759403792794 (-56)) = 
   /\ repr_float (S754_finite false 1 (-1074)) = Some [53; 101; 45; 51; 50; 52]%N                                                     (* 5e-324 *)
   /\ repr_float (S754_finite false 5000000000000000 1) = Some [49; 101; 43; 49; 54]%N.                                               (* 1e+16 *)
 Proof. repeat split; vm_compute; reflexivity. Qed.
+(* the two tolerances of Complex.__str__ (math.isclose: rel_tol 1e-9, abs_tol 1e-16) ARE the doubles their decimal texts denote - read here by the
+   decimal reader whose agreement with float() is checked on every run (the constants were once mistyped by hand: found by a boundary case) *)
+Example tolerances_are_the_decimals : parse_float_text [49; 101; 45; 57]%N = PFloat Float.rel_tol /\ parse_float_text [49; 101; 45; 49; 54]%N = PFloat Float.abs_tol.
+Proof. split; vm_compute; reflexivity. Qed.
 Print Assumptions read_what_was_printed. Print Assumptions real_of_string. Print Assumptions string_of_real. Print Assumptions real_of_bad_string.
